@@ -2,7 +2,9 @@
 mod ast;
 mod corpus;
 mod eval;
+mod hostlog;
 mod mon;
+mod native;
 mod pipe;
 mod pool;
 mod prog;
